@@ -1,8 +1,8 @@
 package sg
 
 import (
-	"strings"
 	"fmt"
+	"strings"
 
 	"pgregory.net/rapid"
 )
